@@ -79,11 +79,11 @@ Theorem c09_versions_strict : forall s s', mono s s' ->
 Proof. exact versions_strict. Qed.
 Print Assumptions c09_versions_strict.
 
-(* prepare_for_resubmission (as repaired by /repo commit ce6353a) on a complete submission, for EVERY
+(* prepare_for_resubmission (as repaired by /repo commits ce6353a, 34e0409) on a complete submission, for EVERY
    rerun set and blocker map (unknown names, duplicates included): no exception, the status is
    consistent again (counters recounted from the table), the rerun jobs are NOT_SUBMITTED with the
    given blockers, all other jobs untouched, is_complete false, both versions strictly higher, the
-   rows of the rerun jobs dropped; is_canceled is NOT reset.  On an incomplete submission: assertion. *)
+   rows of the rerun jobs dropped; is_canceled cleared.  On an incomplete submission: assertion. *)
 Theorem c09_resubmit_reset : forall s rerun upd, wf s -> status_inv s -> c_complete (st_cfg s) = true ->
   exists s', prepare_for_resubmission s rerun upd = Ok s' /\ wf s' /\ status_inv s'
     /\ c_complete (st_cfg s') = false
@@ -91,7 +91,7 @@ Theorem c09_resubmit_reset : forall s rerun upd, wf s -> status_inv s -> c_compl
     /\ js_jobs (st_js s') = map (reset_job rerun upd) (js_jobs (st_js s))
     /\ c_version (st_cfg s) < c_version (st_cfg s')
     /\ js_version (st_js s) < js_version (st_js s')
-    /\ c_canceled (st_cfg s') = c_canceled (st_cfg s)
+    /\ c_canceled (st_cfg s') = false
     /\ st_rows s' = diffN (st_rows s) rerun.
 Proof. exact resubmit_reset. Qed.
 Print Assumptions c09_resubmit_reset.
